@@ -1883,3 +1883,200 @@ def _c01_free_oracle(case, impl):
 
 
 PROPS['C01']['free_oracle'] = _c01_free_oracle
+
+# C14v2: `KOT` cases - the key-output table itself for configurations with chords v2
+def _c14_is_kot(case):
+    return case.startswith('KOT ')
+
+
+def _c14_kot_shrink(case):
+    """KOT cases: drop one chord (one line of the defchordsv2 block) or the override table"""
+    t = case.split()
+    try:
+        lines = bytes.fromhex(t[2]).decode().split('\n')
+    except Exception:
+        return
+    def mk(ls):
+        return ' '.join([t[0], t[1], '\n'.join(ls).encode().hex()] + t[3:])
+    for k, l in enumerate(lines):
+        if l.startswith('  (') or l.startswith('(defoverrides'):
+            yield mk(lines[:k] + lines[k + 1:])
+
+
+def _c14_wrap(kot, other):
+    return lambda case, *a: (kot if _c14_is_kot(case) else other)(case, *a)
+
+
+def _c14_kot_nontrivial(case, impl):
+    # a table was built for a configuration with chords v2
+    return impl.startswith('TBL') and 'defchordsv2' in _cfg_text(case)
+
+
+def _c14_stats(cases, impl):
+    d = _lay_stats([c for c in cases if not _c14_is_kot(c)], [i for c, i in zip(cases, impl) if not _c14_is_kot(c)])
+    kot = [(c, i) for c, i in zip(cases, impl) if _c14_is_kot(c)]
+    d['kot_cases'] = len(kot)
+    d['kot_table_built'] = sum(1 for _, i in kot if i.startswith('TBL'))
+    d['kot_rejected_by_parser'] = sum(1 for _, i in kot if i.startswith('rej'))
+    d['kot_with_overrides'] = sum(1 for c, _ in kot if 'defoverrides' in _cfg_text(c))
+    d['kot_some_chord_disabled_on_some_layer'] = sum(1 for c, i in kot if i.startswith('TBL') and re.search(r'\((l\d ?)+\)\n', _cfg_text(c)))
+    return d
+
+
+PROPS['C14']['lean_modules'] = PROPS['C14']['lean_modules'] + ['KVerif.Props.C14v2']
+PROPS['C14']['determined'] = _c14_wrap(lambda case, out: out, _kan_repeats)
+PROPS['C14']['determined_what'] = 'what each OS repeat event produced; for KOT cases: the key-output table, row by row'
+PROPS['C14']['nontrivial'] = _c14_wrap(_c14_kot_nontrivial, PROPS['C14']['nontrivial'])
+PROPS['C14']['shrink_candidates'] = _c14_wrap(_c14_kot_shrink, PROPS['C14']['shrink_candidates'])
+PROPS['C14']['stats'] = _c14_stats
+PROPS['C14']['rule'] += ('; KOT cases: random configurations with 1-4 layers over 3-6 keys (whole action grammar), 1-5 defchordsv2 chords with '
+                         'overlapping participants (2-3 keys, sometimes one outside defsrc), a random set of disabled layers per chord, chord '
+                         'actions from the whole grammar (multi / tap-hold / fork / switch / one-shot / unmod inside chords), one in three with '
+                         'global overrides: the table Model/KeyOutputsV2.lean builds from the serialised layers and chords-v2 mapping is compared '
+                         'row by row, order included, with the table of the real parser; oracle on the real table: every row holds exactly the '
+                         'leaves of the key\'s action and of the chords enabled on that layer plus their override outputs')
+
+# C08, OS-level slice: `KOS` lines are generic kanata-level lines (harness kan::eval_free / kan::expand,
+# driver Kan.run "KOS"): macros whose bodies hold custom items (mouse buttons, unmod / unshift keys,
+# unicode, wheel, virtual-key taps), compared with the kanata-level model on the whole OS event trace
+# and judged without a model by _c08_os_oracle
+def _c08_os_hist(case):
+    """history events of a KOS line: [('p', y) | ('r', y) | ('t', n)]"""
+    t = case.split(' HIST ', 1)[1].split()
+    evs = []
+    i = 1
+    while i < len(t):
+        if t[i] in ('p', 'r'):
+            evs.append((t[i], int(t[i + 2]))); i += 3
+        elif t[i] == 't':
+            evs.append(('t', int(t[i + 1]))); i += 2
+        else:
+            return None
+    return evs
+
+
+def _c08_os_events(impl):
+    """OS events of a kanata-level trace, in order, virtual times dropped"""
+    if ' :: TRACE ' in impl:
+        impl = impl.split(' :: TRACE ')[1]
+    res = []
+    for tok in impl.split(' || ')[0].split(' '):
+        if tok in ('I', 'D'):
+            break
+        if tok.startswith(('@', '#')) or tok == '-':
+            continue
+        res.append(tok)
+    return res
+
+
+def _c08_os_oracle(case, impl):
+    """OS-level clauses of C08 on the implementation's own trace (KOS lines only):
+    (1) after a balanced history and the quiet tail the configuration asks for (`;; settle <n>`),
+        nothing is down at the OS - neither a key nor a mouse button;
+    (2) one uninterrupted activation (the only input is a tap of the macro key) of a macro that plays
+        its list in full (`;; expect-os <key> <events>`: plain macro, macro-cancel-on-press) sends the
+        OS exactly the spelled list, in order: keys down/up, button click/release, unicode, wheel"""
+    if not case.startswith('KOS '):
+        return None
+    if impl.startswith(('rej', 'harness-error')):
+        return None
+    if impl.startswith('crash'):
+        return 'fail crash while a macro plays: ' + impl[:120]
+    if impl.startswith('unsupported') and ' :: TRACE ' not in impl:
+        return None
+    cfg = _cfg_text(case)
+    m = re.search(r';; settle (\d+)', cfg)
+    hist = _c08_os_hist(case)
+    if not m or hist is None:
+        return None
+    settle = int(m.group(1))
+    down = []
+    ok = True
+    for k, v in hist:
+        if k == 'p':
+            ok = ok and v not in down
+            down.append(v)
+        elif k == 'r':
+            ok = ok and v in down
+            down = [x for x in down if x != v]
+    balanced = ok and not down
+    tail = hist[-1][1] if hist and hist[-1][0] == 't' else 0
+    if not balanced or tail < settle:
+        return None
+    evs = _c08_os_events(impl)
+    held = []
+    for e in evs:
+        mm = re.fullmatch(r'(d|u|bd|bu)(\d+)', e)
+        if not mm:
+            continue
+        key = ('btn' if mm.group(1).startswith('b') else 'key') + mm.group(2)
+        if mm.group(1) in ('d', 'bd'):
+            if key not in held:
+                held.append(key)
+        else:
+            held = [x for x in held if x != key]
+    if held:
+        return 'fail still down at the OS after the macro ended / was cancelled and %d quiet ms: %s' % (tail, ','.join(held))
+    inputs = [(k, v) for k, v in hist if k != 't']
+    if len(inputs) == 2 and inputs[0][0] == 'p' and inputs[1] == ('r', inputs[0][1]):
+        y = inputs[0][1]
+        mm = re.search(r';; expect-os %d ([^\n]*)' % y, cfg)
+        if mm:
+            want = mm.group(1).split()
+            if evs != want:
+                import collections
+                ce, cw = collections.Counter(evs), collections.Counter(want)
+                kind = ('order' if ce == cw else 'fewer' if not (ce - cw) else 'more' if not (cw - ce) else 'other')
+                # `;; tight-custom <key>`: in the body a custom item is directly followed by the next
+                # item (no delay of >= 3 ms in between); computed by the generator from the body alone
+                tight = ' (a custom item is directly followed by the next item)' if re.search(r';; tight-custom %d\b' % y, cfg) else ''
+                return 'fail macro %s%s: the OS received [%s], the list spells [%s]' % (kind, tight, ' '.join(evs), ' '.join(want))
+    return 'ok'
+
+
+def _c08_os_family(case):
+    m = re.search(r';; family (\S+)', _cfg_text(case))
+    return m.group(1) if m else '?'
+
+
+def _c08_describe2(case):
+    if case.startswith('KOS '):
+        d = _lay_describe(case)
+        if isinstance(d, dict):
+            d['level'] = 'whole Kanata, OS event trace (handle_input_event / tick_ms, simulated output sink)'
+            d['family'] = _c08_os_family(case)
+        return d
+    return _c08_describe(case)
+
+
+def _c08_stats2(cases, impl):
+    import collections
+    own = [(c, i) for c, i in zip(cases, impl) if not c.startswith('KOS ')]
+    d = collections.Counter(_c08_stats([c for c, _ in own], [i for _, i in own]))
+    for c, i in zip(cases, impl):
+        if not c.startswith('KOS '):
+            continue
+        d['level_KOS'] += 1
+        d['os_family_' + _c08_os_family(c)] += 1
+        v = _c08_os_oracle(c, i)
+        d['os_oracle_' + ('not-applicable' if v is None else '-'.join(v.split(':')[0].split(' (')[0].split(' ')[:3]))] += 1
+        cfg = _cfg_text(c)
+        inputs = [e for e in (_c08_os_hist(c) or []) if e[0] != 't']
+        if v is not None and len(inputs) == 2 and re.search(r';; expect-os %d ' % inputs[0][1], cfg):
+            d['os_spelled_list_compared'] += 1
+            if ';; tight-custom' in cfg:
+                d['os_spelled_list_compared_tight'] += 1
+        evs = _c08_os_events(i)
+        for name, pat in (('button', r'b[du]\d'), ('unicode', r'U\d'), ('wheel', r's\d'), ('key', r'[du]\d')):
+            if any(re.match(pat, e) for e in evs):
+                d['os_trace_has_' + name] += 1
+    return dict(d)
+
+
+PROPS['C08']['free_oracle'] = _c08_os_oracle
+PROPS['C08']['describe'] = _c08_describe2
+PROPS['C08']['stats'] = _c08_stats2
+PROPS['C08']['determined'] = lambda case, out: _kan_evseq(case, out) if case.startswith('KOS ') else _lay_keyseq(case, out)
+PROPS['C08']['determined_what'] = 'the order in which the key list sent to the OS changes, tick numbers aside (LAY / KAN lines); the order of the events sent to the OS - keys, mouse buttons, wheel, unicode - virtual times aside (KOS lines)'
+PROPS['C08']['rule'] += ('. OS-level slice (KOS lines: whole Kanata with the simulated output sink, compared with the kanata-level model on every OS event): 1-3 macros in all eight list actions whose bodies mix keys, output chords, held groups and delays with custom items - mouse buttons held and tapped, unmod / unshift keys, unicode, vertical and horizontal wheel, virtual-key taps on press and on release; every atom alone, every pair, under a held modifier, triples of custom items before a key (exhaustive); one activation; repeating forms held over several runs; release-cancel and cancel-on-press at every tick offset; two macros overlapping at every offset and random histories over 2-3 macros; a key with a custom action of its own pressed / released / tapped at every tick offset of the macro so that two custom events fall into one tick. Model-free oracle on the real trace: nothing (key or button) down at the OS after a balanced history and the quiet tail; one uninterrupted activation of a plain or cancel-on-press macro sends exactly the spelled list (carried in the configuration text as ;; expect-os)')
+PROPS['C08']['trusted_base'] = PROPS['C08']['trusted_base'] + ['Model/Kanata.lean as a transcription of src/kanata/mod.rs (KOS lines: checked differentially on OS events with virtual-time stamps, the idle flag and the layout digest)', 'the spelled OS event list of a macro body is written by the harness generator together with the configuration text (harness/src/c08.rs os_expect)']
